@@ -57,6 +57,13 @@ void run(size_t idx) {
 		obj->GetChildRefs(en);
 		std::set<NiRef*> childOnly = en;
 		obj->GetPtrs(en);
+		{
+			// the header renumbers child refs and ptrs in two passes (SetBlockOrder): a reference reported by both would be renumbered twice
+			std::set<NiRef*> ptrOnly;
+			obj->GetPtrs(ptrOnly);
+			for (auto r : ptrOnly)
+				if (childOnly.count(r)) { R_viol("ref-enumerated-twice", name, fmt("%s instance %d: a reference field is reported by GetChildRefs and by GetPtrs", v.n, it)); break; }
+		}
 		std::vector<NiStringRef*> sv;
 		obj->GetStringRefs(sv);
 		std::set<NiStringRef*> es(sv.begin(), sv.end());
@@ -116,7 +123,7 @@ void run(size_t idx) {
 MonReg reg({"C05", "exploration",
 			"all 304 registered block types x 36 versions (14 + 22 Fallout 3 range streams); per pair 8 (quick) / 60 (thorough) populated instances synthesised by answering the library's own reader through the typed "
 			"read hook (arrays forced non-empty in 3 of 4, optional sections biased on/off/fair). Events: every NiRef*/NiStringRef* passing through NiBlockRef<T>::Sync / "
-			"NiStringRef::Read|Write during Get and Put. Oracle: each is a member of GetChildRefs U GetPtrs resp. GetStringRefs (string indices only from 20.1.0.3), and the multiset "
+			"NiStringRef::Read|Write during Get and Put. Oracle: each is a member of GetChildRefs U GetPtrs (and of only one of the two) resp. GetStringRefs (string indices only from 20.1.0.3), and the multiset "
 			"of GetChildIndices equals the indices of GetChildRefs. Non-trivial = instance that serialises at least one reference or string; distinct by (version,type,payload hash).",
 			[] { return typeDB().names.size() * nAllVers(); }, run, 40, 60.0, false, true, nullptr});
 } // namespace
